@@ -70,6 +70,12 @@ TAMPERS = [
     ("flip bit 3 of last byte", lambda m, own: m[:-1] + bytes([m[-1] ^ 8])),
     ("reflect", lambda m, own: m[:1] + own[1:]),
     ("side only", lambda m, own: m[:1]),
+    # the side byte is part of the message in flight although it is not in the transcript
+    ("side byte bit 5 flipped", lambda m, own: bytes([m[0] ^ 0x20]) + m[1:]),
+    ("side byte bit 0 flipped", lambda m, own: bytes([m[0] ^ 0x01]) + m[1:]),
+    ("side byte 00", lambda m, own: b"\x00" + m[1:]),
+    ("side byte ff", lambda m, own: b"\xff" + m[1:]),
+    ("side byte of the other flavour", lambda m, own: (b"S" if m[:1] in (b"A", b"B") else b"A") + m[1:]),
 ]
 
 
@@ -82,8 +88,10 @@ def tamper_traces(ctx, uni, mp, g, ps, cases, subst, tag):
         ids = (b"a", b"b") if pairing == "AB" else (b"s",)
         fa = TAMPERS[ta][1] if ta < len(TAMPERS) else (lambda m, own, s=subst[ta - len(TAMPERS)]: m[:1] + s)
         fb = TAMPERS[tb][1] if tb < len(TAMPERS) else (lambda m, own, s=subst[tb - len(TAMPERS)]: m[:1] + s)
+        nn = len(traces)
         r = exchange(uni, "%s/%s/%s/w%s/x%d/y%d/A:%d/B:%d" % (tag, g, pairing, w, x % 1000, y % 1000, ta, tb), pairing, ps, pw, pw,
-                     ids, ids, mp.stream_for(g, x), mp.stream_for(g, y), tamperA=fa, tamperB=fb)
+                     ids, ids, mp.stream_for(g, x), mp.stream_for(g, y), tamperA=fa, tamperB=fb,
+                     restoreA=(nn // 3) % 2, restoreB=(nn // 5) % 2)
         traces.append(r.json())
     return traces
 
@@ -117,9 +125,10 @@ def mismatch_traces(ctx, uni, mp, g, ps, fam, thorough):
                           else [(q - x) % q if x else ctx.rng.randrange(q)]):
                     for w in ([0, 1] if toy else [None]):
                         pw = kw.get("pwA") or (mp.pw_for(g, w) if toy else b"password")
+                        nn = len(traces)     # either end may have been persisted and revived before finish()
                         r = exchange(uni, "mismatch/%s/%s/%s/x%d/y%d/w%s" % (g, pairing, name, x % 1000, y % 1000, w), pairing, ps, pw,
                                      kw.get("pwB", pw), ids, kw.get("idsB", ids), mp.stream_for(g, x), mp.stream_for(g, y),
-                                     psB=kw.get("psB"))
+                                     psB=kw.get("psB"), restoreA=nn % 2, restoreB=(nn // 2) % 2)
                         traces.append(r.json())
     return traces
 
